@@ -1,74 +1,111 @@
 (* Props/C20.v — reads on behalf of a vector never touch bytes outside its region's valid data.
-   Statements only.  `accesses_ok c s`: every (off, len) the path fetches satisfies
-   off + len <= region_len c. *)
-From Anydb Require Import Common.Base Gen.Consts Gen.Sizes Vec.RdModel Vec.RdCursor Vec.RdComp Vec.RdProofs.
+   Statements only.  `good c s ys` / `cgood c s ys` (RdProofs / RdCompProofs) contain
+   `Forall (in_region c) (fetches s)`: every (off, len) the path fetches satisfies
+   off + len <= region length — together with the result, so that the access claim is about the
+   same run that returns the right elements. *)
+From Anydb Require Import Common.Base Gen.Consts Gen.Sizes Vec.RdModel Vec.RdCursor Vec.RdComp Vec.RdProofs
+  Vec.RdCursorProofs Vec.RdCompProofs Vec.RdRefuted.
 
-(* ---- full statements *)
-Definition C20_read_into_at_full : Prop := forall c from to, wf c -> accesses_ok c (read_into_at c from to).
-Definition C20_fold_range_at_full : Prop := forall c from to, wf c -> accesses_ok c (fold_range_at c from to).
-Definition C20_try_fold_range_at_full : Prop := forall c from to, wf c -> accesses_ok c (try_fold_range_at c from to).
-Definition C20_read_at_once_full : Prop := forall c i, wf c -> accesses_ok c (read_at_once c i).
-Definition C20_vec_reader_full : Prop := forall c i, wf c -> accesses_ok c (vr_try_get c i).
-Definition C20_clone_full : Prop := forall c from to, wf c -> accesses_ok c (ro_read_into c from to).
-Definition C20_compressed_full : Prop :=
-  forall c from to, cwf_b c = true ->
-  Forall (fun a => fst a + snd a <= c_rlen c) (fetches (cread_into_at c from to)).
+(* ---- raw vector, ALL well-formed states — in particular stored_len above the on-disk length after a
+   rollback (wf: every index in [|disk|, stored_len) is an `updated` key or a hole) *)
+Theorem C20_read_into_at : forall c from to, wf c -> good c (read_into_at c from to) (expected c from to).
+Proof. exact read_into_at_good. Qed.
+Print Assumptions C20_read_into_at.
 
-(* ---- proved for all well-formed states, including stored_len above the on-disk length *)
-Theorem C20_get_any :
-  forall c i, wf c ->
-  yields (get_any c i) = opt_list (view c i) /\ clean (get_any c i) = true /\ accesses_ok c (get_any c i).
-Proof. exact get_any_correct. Qed.
-Print Assumptions C20_get_any.
+Theorem C20_fold_range_at : forall c from to, wf c -> good c (fold_range_at c from to) (expected c from to).
+Proof. exact fold_range_at_good. Qed.
+Print Assumptions C20_fold_range_at.
 
-Theorem C20_collect_one_at :
-  forall c i, wf c ->
-  yields (collect_one_at c i) = opt_list (expected_one c i)
-  /\ clean (collect_one_at c i) = true /\ accesses_ok c (collect_one_at c i).
-Proof. exact collect_one_correct. Qed.
-Print Assumptions C20_collect_one_at.
+Theorem C20_try_fold_range_at : forall c from to, wf c -> good c (try_fold_range_at c from to) (expected c from to).
+Proof. exact try_fold_range_at_good. Qed.
+Print Assumptions C20_try_fold_range_at.
 
-Theorem C20_read_ref_at : forall c i, wf c -> clean (read_ref_at c i) = true /\ accesses_ok c (read_ref_at c i).
-Proof. exact read_ref_at_ok. Qed.
-Print Assumptions C20_read_ref_at.
-
-(* an early-exiting closure (try_fold) never makes a path fetch more than its full run *)
-Theorem C20_early_exit : forall c k s, accesses_ok c s -> accesses_ok c (cut k s).
-Proof. exact cut_accesses_ok. Qed.
+(* an early-exiting closure sees a prefix and never makes a path fetch more than its full run *)
+Theorem C20_early_exit : forall (P : acc -> Prop) k s ys, goodP P s ys -> goodP P (cut k s) (firstn (S k) ys).
+Proof. exact cut_good. Qed.
 Print Assumptions C20_early_exit.
 
-(* ---- proved for the states in which every stored index is on disk (no pending rollback overlay);
-   missing: nothing can be added, the unrestricted statements are refuted below *)
-Theorem C20_vec_reader_partial :
-  forall c i, not_expanded c -> clean (vr_try_get c i) = true /\ accesses_ok c (vr_try_get c i).
-Proof. exact vr_try_get_ok. Qed.
+Theorem C20_collect_one_at : forall c i, wf c -> good c (collect_one_at c i) (opt_list (expected_one c i)).
+Proof. exact collect_one_good. Qed.
+Print Assumptions C20_collect_one_at.
+
+Theorem C20_get_any : forall c i, wf c -> good c (get_any c i) (V c i).
+Proof. exact get_any_good. Qed.
+Print Assumptions C20_get_any.
+
+Theorem C20_read_ref_at : forall c i, wf c ->
+  good c (read_ref_at c i)
+    (if is_hole c i then [] else if r_stored c <=? i then [] else
+       match upd_get c i with Some _ => [] | None => V c i end).
+Proof. exact read_ref_at_good. Qed.
+Print Assumptions C20_read_ref_at.
+
+(* read_at / read_at_once (repaired in 0cb3a2b): a buffered index never touches the map, in every state *)
+Theorem C20_read_at_once_buffered : forall c i, r_stored c <= i -> i < rlen c ->
+  good c (read_at_once c i) (opt_list (get (r_pushed c) (i - r_stored c))).
+Proof. exact read_at_once_buffered. Qed.
+Print Assumptions C20_read_at_once_buffered.
+
+(* the file-IO back-end: seek and every refill lie inside the region *)
+Theorem C20_io_source : forall c f t, wf c -> f <= t -> t <= r_stored c -> not_expanded c ->
+  good c (io_src c (r_stored c) f t) (flat_map (D c) (seqN f (N.to_nat (t - f)))).
+Proof. exact io_src_good. Qed.
+Print Assumptions C20_io_source.
+
+Theorem C20_mmap_source : forall c f t, f <= t -> t <= r_stored c -> not_expanded c ->
+  good c (mmap_src c (r_stored c) f t) (flat_map (D c) (seqN f (N.to_nat (t - f)))).
+Proof. exact mmap_src_good. Qed.
+Print Assumptions C20_mmap_source.
+
+(* cursor and sorted reads (states without deleted slots) fetch only what read_into_at fetches *)
+Theorem C20_read_sorted : forall c, wf c -> hole_free c -> forall idx,
+  exists a, read_sorted (raw_rvec c) idx = (ROk (flat_map (fun i => opt_list (expected_one c i)) idx), a)
+            /\ Forall (in_region c) a.
+Proof. exact raw_read_sorted. Qed.
+Print Assumptions C20_read_sorted.
+
+Theorem C20_cursor_fold : forall c, wf c -> hole_free c -> forall k, rlen c <= u64_max ->
+  exists cu' a, cursor_fold (raw_rvec c) cursor_new k = (CList (expected c 0 k), cu', a)
+    /\ cu_pos cu' = N.min k (rlen c) /\ Forall (in_region c) a.
+Proof. exact raw_cursor_fold. Qed.
+Print Assumptions C20_cursor_fold.
+
+(* ---- paths that ignore the `updated` overlay by design (VecReader, get_pushed_or_read_at, the lean
+   read-only clone): inside the region in the states where every stored index is on disk.  Nothing can
+   be added: the unrestricted statements are refuted below (known rollback-of-truncation class). *)
+Theorem C20_vec_reader_partial : forall c i, not_expanded c ->
+  good c (vr_try_get c i) (if i <? r_stored c then D c i else []).
+Proof. exact vr_try_get_good. Qed.
 Print Assumptions C20_vec_reader_partial.
 
-Theorem C20_vec_reader_get_partial :
-  forall c i, not_expanded c -> i < r_stored c -> clean (vr_get c i) = true /\ accesses_ok c (vr_get c i).
-Proof. exact vr_get_ok. Qed.
+Theorem C20_vec_reader_get_partial : forall c i, not_expanded c -> i < r_stored c -> good c (vr_get c i) (D c i).
+Proof. exact vr_get_good. Qed.
 Print Assumptions C20_vec_reader_get_partial.
 
-Theorem C20_clone_collect_one_partial :
-  forall c i, not_expanded c -> clean (ro_collect_one c i) = true /\ accesses_ok c (ro_collect_one c i).
-Proof. exact ro_collect_one_ok. Qed.
+Theorem C20_get_pushed_or_read_partial : forall c i, not_expanded c -> i < rlen c ->
+  good c (get_pushed_or_read c i) (if r_stored c <=? i then opt_list (get (r_pushed c) (i - r_stored c)) else D c i).
+Proof. exact get_pushed_or_read_good. Qed.
+Print Assumptions C20_get_pushed_or_read_partial.
+
+Theorem C20_clone_collect_one_partial : forall c i, not_expanded c ->
+  good c (ro_collect_one c i) (if r_stored c <=? i then [] else D c i).
+Proof. exact ro_collect_one_good. Qed.
 Print Assumptions C20_clone_collect_one_partial.
 
-(* the pointer scan (RawMmapSource) over any range; missing for the range entry points: fold_dirty,
-   the IO source's refill arithmetic, the memcpy path *)
-Theorem C20_mmap_src_partial :
-  forall c from to, not_expanded c ->
-  yields (mmap_src c (r_stored c) from to) = slice (N.min from (r_stored c)) (N.min to (r_stored c)) (r_disk c)
-  /\ clean (mmap_src c (r_stored c) from to) = true
-  /\ accesses_ok c (mmap_src c (r_stored c) from to).
-Proof. exact mmap_src_ok. Qed.
-Print Assumptions C20_mmap_src_partial.
+Theorem C20_clone_read_into_partial : forall c from to, wf c -> not_expanded c ->
+  good c (ro_read_into c from to)
+    (flat_map (D c) (seqN (N.min from (r_stored c)) (N.to_nat (N.min to (r_stored c) - N.min from (r_stored c))))).
+Proof. exact ro_read_into_good. Qed.
+Print Assumptions C20_clone_read_into_partial.
 
-(* ---- refuted by the faithful model *)
-Theorem C20_read_at_once_refuted :
-  wf w_buffered /\ region_len w_buffered = 56 /\ run (read_at_once w_buffered 4) = (RGarbage, [(64, 8)]).
-Proof. exact read_at_once_refuted. Qed.
-Print Assumptions C20_read_at_once_refuted.
+Theorem C20_fold_stored_partial : forall io c from to, wf c -> not_expanded c ->
+  good c ((if io : bool then fold_stored_io else fold_stored_mmap) c from to)
+    (flat_map (D c) (seqN (N.min from (r_stored c)) (N.to_nat (N.min to (r_stored c) - N.min from (r_stored c))))).
+Proof. exact fold_stored_good. Qed.
+Print Assumptions C20_fold_stored_partial.
+
+Definition C20_vec_reader_full : Prop := forall c i, wf c -> accesses_ok c (vr_try_get c i).
+Definition C20_clone_full : Prop := forall c from to, wf c -> accesses_ok c (ro_read_into c from to).
 
 Theorem C20_clone_after_rollback_refuted :
   wf w_expanded /\ region_len w_expanded = 48
@@ -76,3 +113,31 @@ Theorem C20_clone_after_rollback_refuted :
   /\ run (vr_try_get w_expanded 3) = (RGarbage, [(56, 8)]).
 Proof. exact clone_after_rollback_refuted. Qed.
 Print Assumptions C20_clone_after_rollback_refuted.
+
+(* ---- compressed vector: every fetch is a page's byte range (or a refill of consecutive pages), which
+   the page index places inside the region *)
+Theorem C20_comp_read_into_at : forall c, cwf c -> forall from to, cgood c (cread_into_at c from to) (cexpected c from to).
+Proof. exact cread_into_at_good. Qed.
+Print Assumptions C20_comp_read_into_at.
+
+Theorem C20_comp_fold_range_at : forall c, cwf c -> forall strict from to, io_sized c ->
+  cgood c (cfold_range_at strict c from to) (cexpected c from to).
+Proof. exact cfold_range_at_good. Qed.
+Print Assumptions C20_comp_fold_range_at.
+
+Theorem C20_comp_io_source : forall c, cwf c -> forall strict f t, io_sized c -> f <= t -> t <= c_stored c ->
+  cgood c (cio_src strict c (c_stored c) f t) (flat_map (G c) (seqN f (N.to_nat (t - f)))).
+Proof. exact cio_src_good. Qed.
+Print Assumptions C20_comp_io_source.
+
+Theorem C20_comp_fold_stored : forall c, cwf c -> forall io from to, io_sized c ->
+  cgood c (cfold_stored io c from to)
+    (flat_map (G c) (seqN (N.min from (c_stored c)) (N.to_nat (N.min to (c_stored c) - N.min from (c_stored c))))).
+Proof. exact cfold_stored_good. Qed.
+Print Assumptions C20_comp_fold_stored.
+
+Theorem C20_comp_clone : forall c, cwf c -> forall strict from to, io_sized c ->
+  cgood c (cro_fold_range strict c from to)
+    (flat_map (G c) (seqN (N.min from (c_stored c)) (N.to_nat (N.min to (c_stored c) - N.min from (c_stored c))))).
+Proof. exact cro_fold_range_good. Qed.
+Print Assumptions C20_comp_clone.
